@@ -135,7 +135,8 @@ def _identifier_membership_observed(prog, kw):
         return None, str(e)
     samples = []
     for s_ in sorted(k for k in kw if isinstance(k, str)):
-        samples += [s_, s_ + "x", "x" + s_, s_ + "_", "_" + s_, s_ + "1", s_.swapcase(), s_ + s_]
+        samples += [s_, s_ + "x", "x" + s_, s_ + "_", "_" + s_, s_ + "1", s_.swapcase(), s_ + s_,
+                    "__" + s_, "__" + s_ + "__", s_ + "__", "_" + s_ + "_"]        # the GNU alternate spellings are ordinary names
     samples += ["foo", "main", "ft_strlen", "g_count", "t_list", "s_node", "x", "_", "__attribute__", "environ", "defined", "A1_b2"]
     # every spelling the method itself mentions (a literal, or an element of a table it reads), in both cases
     pi = prog.method("Lexer", "parse_identifier")
